@@ -230,6 +230,12 @@ pub fn derive_plans(rng: &mut Rng, tier: Tier, count: usize) -> Vec<Plan> {
         if enable_history && rng.chance(1, 4) {
             plan.prior_edit = rng.range(1, 1 << 30) as u32;
         }
+        if enable_history && tier == Tier::Exec && plan.prior_edit == 0 && rng.chance(1, 4) {
+            plan.prior_crash = *rng.pick(&[1u32, 1, 2, 2, 3, 3, 4, 5, 6, 8, 11]);
+        }
+        if enable_history && tier == Tier::Exec && plan.prior_edit == 0 && plan.prior_crash == 0 && rng.chance(1, 5) {
+            plan.overlap = *rng.pick(&[1u32, 1, 2, 2, 3, 4, 5, 6]);
+        }
         if enable_io_timing && rng.chance(1, 3) {
             // timed waits run out at once / early / late; reads of the file come in pieces
             if rng.chance(2, 3) {
@@ -241,6 +247,11 @@ pub fn derive_plans(rng: &mut Rng, tier: Tier, count: usize) -> Vec<Plan> {
             }
         }
         plans.push(plan);
+    }
+    // In some groups the very first launch already has a crashed launch behind it (a cold cache
+    // torn by a kill is only ever written by the first launch that sees the file).
+    if tier == Tier::Exec && enable_history && rng.chance(1, 3) {
+        plans[0].prior_crash = *rng.pick(&[2u32, 3, 3, 4, 4, 5, 6, 8]);
     }
     plans
 }
@@ -417,6 +428,10 @@ pub struct Outcome {
     pub mirror_mismatches: u64,
     /// launches that were preceded by a launch on a sibling version of the file at the same path
     pub history_faults: u64,
+    /// earlier launches of a `prior_crash` history that were actually killed at their crash point
+    pub crash_faults: u64,
+    /// launches that ran next to a companion launch stalled part-way
+    pub overlap_faults: u64,
 }
 
 fn colour_override(colour: Colour) {
@@ -709,6 +724,8 @@ pub fn run_spec(spec: &Spec, envs: &Envs, scratch_tag: &str, stop_at_first: bool
         orders: vec![],
         mirror_mismatches: 0,
         history_faults: 0,
+        crash_faults: 0,
+        overlap_faults: 0,
     };
     let dir = envs.work.join(scratch_tag);
     let link_name = format!("q{}", &spec.file_name[1.min(spec.file_name.len())..]);
@@ -802,6 +819,32 @@ pub fn run_spec(spec: &Spec, envs: &Envs, scratch_tag: &str, stop_at_first: bool
                 }
             }
         }
+        if spec.tier == Tier::Exec && plan.prior_crash != 0 {
+            // history fault: the same command on the same file, killed at a crash point; what it
+            // had made durable by then is there for the observed launch
+            let mut victim = plan.clone();
+            victim.crash_at = plan.prior_crash;
+            file_metadata_fault(&dir.join(&spec.file_name), &spec.source, plan);
+            let mut scratch_orders = vec![];
+            let mut scratch_mismatches = 0u64;
+            let tag = format!("c{i}");
+            match launch_one(spec, &path_arg, &dir, &victim, envs, &tag, &mut scratch_orders, &mut scratch_mismatches) {
+                Ok((o, log)) => {
+                    if o.abnormal.as_deref() == Some("timeout") {
+                        out.status = "skipped_divergent".to_owned();
+                        break;
+                    }
+                    if log.crashed {
+                        out.crash_faults += 1;
+                    }
+                }
+                Err((status, note)) => {
+                    out.status = status;
+                    out.note = note;
+                    break;
+                }
+            }
+        }
         if file_on_disk {
             let mut p = plan.clone();
             if plan.prior_edit != 0 {
@@ -809,8 +852,27 @@ pub fn run_spec(spec: &Spec, envs: &Envs, scratch_tag: &str, stop_at_first: bool
             }
             file_metadata_fault(&dir.join(&spec.file_name), &spec.source, &p);
         }
+        // overlap fault: another launch of the same command is in flight, stalled part-way
+        let mut companion = None;
+        if spec.tier == Tier::Exec && plan.overlap != 0 {
+            companion = sim_exec::spawn_companion(&envs.exec, &spec.form.argv(&path_arg), &dir, &dir, spec.colour, &spec.plans[0], &format!("o{i}"), plan.overlap, 400);
+            if let Some((_, true)) = &companion {
+                out.overlap_faults += 1;
+            }
+        }
         let tag = format!("l{i}");
-        let (obs, log) = match launch_one(spec, &path_arg, &dir, plan, envs, &tag, &mut out.orders, &mut out.mirror_mismatches) {
+        let launched = launch_one(spec, &path_arg, &dir, plan, envs, &tag, &mut out.orders, &mut out.mirror_mismatches);
+        if let Some((mut child, _)) = companion {
+            // let the companion finish (it resumes by itself), but never wait for a divergent one
+            let t0 = std::time::Instant::now();
+            while matches!(child.try_wait(), Ok(None)) && t0.elapsed() < std::time::Duration::from_millis(1500) {
+                std::thread::sleep(std::time::Duration::from_millis(2));
+            }
+            let _ = child.kill();
+            let _ = child.wait();
+            let _ = fs::remove_file(dir.join(format!("o{i}.log")));
+        }
+        let (obs, log) = match launched {
             Ok(pair) => pair,
             Err((status, note)) => {
                 out.status = status;
